@@ -1,6 +1,8 @@
 import ServlinVerif.Props.C18
+import ServlinVerif.Props.CodeTables
 open Servlin.C18
 #print axioms C18_tags
 #print axioms C18_one_event
 #print axioms C18_wrap
 #print axioms foldl_inv
+#print axioms Servlin.CodeTables.tagOrder_matches
